@@ -83,6 +83,66 @@ def run_c09(c):
     return out
 
 
+def run_ops(c):
+    """drive one real GHE through an operation sequence; after each simulate/size compare its stored temperatures with a
+    FRESH object simulated at the same height with the same method"""
+    import copy
+    from ghedesigner.enums import TimestepType
+    ghe = build(c)
+    g0 = copy.deepcopy(ghe.gFunction)
+    M = {"hybrid": TimestepType.HYBRID, "hourly": TimestepType.HOURLY}
+
+    def fresh(h, m):
+        f = build(dict(c, _reuse_g=True))
+        return f
+
+    # build() computes the g-function again (deterministic); to keep this cheap, reuse a deep copy of the pristine table
+    def fresh_sim(h, m):
+        from ghedesigner.ground_heat_exchangers import GHE
+        from ghedesigner.borehole import GHEBorehole
+        # same construction height as the object under test (the hybrid loads are built once, at construction)
+        b = GHEBorehole(c.get("H", 100.0), ghe.bhe.b.D, ghe.bhe.b.r_b, 0.0, 0.0)
+        f = GHE(ghe.V_flow_system, ghe.B_spacing, ghe.bhe_type, ghe.bhe.fluid, b, copy.deepcopy(ghe.bhe.pipe), ghe.bhe.grout, ghe.bhe.soil,
+                copy.deepcopy(g0), ghe.sim_params, list(ghe.hourly_extraction_ground_loads))
+        f.bhe.b.H = h
+        return f.simulate(method=M[m])
+    out = []
+    last_m = None
+    for op in c["ops"]:
+        rec = {"op": op}
+        try:
+            if op[0] == "setH":
+                ghe.bhe.b.H = op[1]
+            elif op[0] in ("hybrid", "hourly"):
+                last_m = op[0]
+                mx, mn = ghe.simulate(method=M[op[0]])
+                rec.update(ret=[mx, mn])
+            elif op[0] == "size":
+                last_m = "hybrid"
+                evals = []
+                orig = ghe.simulate
+
+                def spy(method, _o=orig):
+                    evals.append(float(ghe.bhe.b.H))
+                    return _o(method=method)
+                ghe.simulate = spy
+                try:
+                    ghe.size(method=TimestepType.HYBRID)
+                finally:
+                    del ghe.simulate
+                rec.update(evals=evals)
+            rec["H"] = float(ghe.bhe.b.H)
+            if len(ghe.hp_eft) > 0 and last_m is not None:
+                rec["stored"] = [max(ghe.hp_eft), min(ghe.hp_eft), len(ghe.hp_eft)]
+                fm = fresh_sim(rec["H"], last_m)
+                rec["fresh"] = [fm[0], fm[1]]
+        except Exception as ex:
+            rec["exc"] = type(ex).__name__
+            rec["msg"] = str(ex)[:200]
+        out.append(rec)
+    return {"ok": True, "trace": out}
+
+
 def run_flow(c):
     """retrieve_flow of both search classes on a field of n boreholes"""
     import ghedesigner.search_routines as sr
@@ -118,6 +178,8 @@ if __name__ == "__main__":
         try:
             if p.get("mode", "c09") == "c09":
                 out.append(dict(run_c09(c), ok=True))
+            elif p["mode"] == "ops":
+                out.append(run_ops(c))
             elif p["mode"] == "flow":
                 out.append(run_flow(c))
             elif p["mode"] == "pair":
